@@ -36,10 +36,12 @@ CHECKS['C08'] = dict(engine='proc-sim', level='exploration', technique='determin
 CHECKS['C10'] = dict(engine='proc-sim+net', level='exploration', technique='deterministic simulation with fault injection: real interpreter/dependency()/wrap.Resolver in a forked child against a scripted fake HTTP server, simulated back-off clock, digest-recording unpacker and a private pkg-config world; faults (URLError, OSError, truncated body, flipped byte, substituted archive, corrupt cache/packagefiles, failing patch/diff) injected at each acquisition step; results compared with a transcription of the documented policy, integrity invariants checked on every unpack, and the world is configured a second time',
    text='Seeded search over the policy cross product and over fault sequences along fetch -> verify -> unpack -> patch -> diff, each world run twice so that what a failed run leaves behind is also judged.',
    note='Trusted: models/deps_ref.py (policy and acquisition procedure written from the statement and the manuals; an unverifiable corrupt local archive is marked undetermined), fake server implements info()/read()/close() only. Real code: DependencyFallbacksHolder, pkg-config detection with the real binary, wrap.Resolver incl. patch(1).', ref='DESIGN §3 C10')
+CHECKS['C11'] = dict(engine='proc-sim+fs', level='exploration', technique='deterministic simulation of install histories over a persistent DESTDIR: each install/uninstall step runs in a forked child whose every file-system mutation is observed through an audit hook (containment, dry-run), with simulator-chosen ambient umask, mtime skew (the clock --only-changed depends on), pre-populated DESTDIR and DESTDIR source; resulting trees compared with a reference model computed from the project spec',
+   text='Seeded search over generated install rule sets and bounded histories (install, reinstall, --only-changed, --dry-run, --tags, --skip-subprojects, uninstall). Containment is checked on every recorded mutation, exactness and reversibility on the tree after each step.',
+   note='Trusted: models/install_ref.py (destinations, modes, tags from the documented rules); the audit hook sees all Python-level mutations of the in-process installer (no external helper runs in these projects). Real code: create_install_data, minstall.Installer, scripts/uninstall.', ref='DESIGN §3 C11')
 PENDING = {
  'C05': 'claimed in DESIGN §3 (ninja-sim schedules + hermetic replay) - check not built yet in this revision',
  'C06': 'claimed in DESIGN §3 (nondeterminism seams) - check not built yet in this revision',
- 'C11': 'claimed in DESIGN §3 (audit-hook FS monitor, install histories) - check not built yet in this revision',
 }
 m = {
  'version': 1,
